@@ -84,6 +84,14 @@ def sliding(classes, ml, cm, seed, **kw):
                                    random_state=seed, **kw)
 
 
+@_c("sliding_pwc")
+def sliding_pwc(classes, ml, cm, seed, **kw):
+    # soft probabilities (wide kernel) and the cost matrix / classes given to the WRAPPER only
+    inner = ParzenWindowClassifier(metric_dict={"gamma": 0.05}, missing_label=ml, random_state=0)
+    return SlidingWindowClassifier(inner, classes=classes, missing_label=ml, cost_matrix=cm,
+                                   window_size=kw.pop("window_size", 8), random_state=seed, **kw)
+
+
 @_c("ens_soft", multi=True)
 def ens_soft(classes, ml, cm, seed, n_annot=3, **kw):
     return AnnotatorEnsembleClassifier(
